@@ -99,6 +99,8 @@ def _check_coordinate_list(value, low, high):
         raise ValueError("bad seconds value")
     if value[3] < 0 or value[3] > 999:
         raise ValueError("bad milliseconds value")
+    if value[0] in (low, high) and (value[1] or value[2] or value[3]):
+        raise ValueError(f"not in range [{low}, {high}]")
     if value[4] != 1 and value[4] != -1:
         raise ValueError("bad hemisphere value")
 
